@@ -178,13 +178,16 @@ func genWord(t *rapid.T, label string) *uint256.Int {
 // Program generator
 
 type ProgCfg struct {
-	Fork      string
-	Extra     []int
-	Standard  bool // only standard opcodes and precompiles (C01/C02/C18 domain)
-	Journal   bool // allow journal opcodes (C03)
-	Cancun    bool // allow TLOAD/TSTORE/MCOPY heavy programs
-	Contracts int
-	MaxSnips  int
+	Fork        string
+	Extra       []int
+	Standard    bool // only standard opcodes and precompiles (C01/C02/C18 domain)
+	Journal     bool // allow journal opcodes (C03)
+	Cancun      bool // allow TLOAD/TSTORE/MCOPY heavy programs
+	Contracts   int
+	MaxSnips    int
+	NoArtelaPre bool   // never address 0x64-0x66
+	Focus       []byte // opcodes to favour in micro snippets
+	FocusPct    int
 }
 
 type progGen struct {
@@ -245,7 +248,7 @@ func (g *progGen) genAddr(label string) *uint256.Int {
 		// neighbours of the precompile range (never 0x64..0x66 in standard mode)
 		v := pickU64(t, label+".an", 0, 10, 11, 0x63, 0x67, 0x100)
 		return uint256.NewInt(v)
-	case k < 18 && !g.cfg.Standard:
+	case k < 18 && !g.cfg.Standard && !g.cfg.NoArtelaPre:
 		return uint256.NewInt(pickU64(t, label+".ax", 0x64, 0x65, 0x66))
 	case k < 19:
 		// dirty upper bytes over a known address
@@ -429,6 +432,10 @@ func (c *codeGen) disposeResults(k int) {
 func (c *codeGen) micro() {
 	t := c.t()
 	g := c.g
+	if len(g.cfg.Focus) > 0 && chance(t, g.cfg.FocusPct, "focus") {
+		c.microOp(g.cfg.Focus[uniform(t, 0, len(g.cfg.Focus)-1, "focusop")])
+		return
+	}
 	op := g.ops[uniform(t, 0, len(g.ops)-1, "op")]
 	c.microOp(op)
 }
@@ -605,7 +612,7 @@ func (c *codeGen) createSnippet() {
 	if chance(t, 40, "createcall") {
 		// call the created contract
 		c.a.Op(DUP1)
-		c.a.Push(0).Push(0).Push(0).Push(0).Push(0).Op(DUP1 + 5).Push(uint64(rapid.IntRange(0, 100000).Draw(t, "ccgas"))).Op(CALL, POP, POP)
+		c.a.Push(0).Push(0).Push(0).Push(0).Push(0).Op(DUP1+5).Push(uint64(rapid.IntRange(0, 100000).Draw(t, "ccgas"))).Op(CALL, POP, POP)
 	}
 	c.disposeResults(1)
 }
